@@ -25,6 +25,7 @@ DEFAULT_PREFIX_LOOKUP_SIZE: Final[int] = 150
 DEFAULT_DATATYPE_LOOKUP_SIZE: Final[int] = 32
 
 STRING_DATATYPE_IRI = "http://www.w3.org/2001/XMLSchema#string"
+LANG_STRING_DATATYPE_IRI = "http://www.w3.org/1999/02/22-rdf-syntax-ns#langString"
 
 INTEGRATION_SIDE_EFFECTS: bool = True
 """
